@@ -37,7 +37,7 @@ Theorem C07_request_order : forall (X : Type) (f : list nat -> option X) x,
 Proof. exact (fun X f x => conj (with_order_sound f x) (conj (with_order_complete f x) (with_order_negative f x))). Qed.
 
 (* target shapes: tuple, list, integer array with one non-singleton axis, bare int; float arrays and negative sizes refused *)
-Theorem C07_request_shape : forall (X : Type) (f : list nat -> option X) (s : list nat),
+Theorem C07_request_shape : forall (X : Type) (f : list nat -> option X) (s : list nat), s <> [] ->
   with_shape f (STuple (ints (map Z.of_nat s))) = f s /\ with_shape f (SList (ints (map Z.of_nat s))) = f s /\
   (forall shp, filter (fun d => negb (d =? 1)%Z) shp = [zlen (map Z.of_nat s)] ->
      with_shape f (SArr (mknd shp DInt (map NFin (map Z.of_nat s)))) = f s) /\
@@ -61,7 +61,7 @@ Theorem C07_permute_request_dense : forall (T : dense V) x p, wf_dense T -> is_p
     (forall i, length i = length (dshape T) -> den_dense v0 R i = den_dense v0 T (pick 0 (invperm p) i)).
 Proof. exact (permute_d_req_correct v0). Qed.
 
-Theorem C07_reshape_request_dense : forall (T : dense V) x s', wf_dense T -> size s' = size (dshape T) ->
+Theorem C07_reshape_request_dense : forall (T : dense V) x s', wf_dense T -> size s' = size (dshape T) -> s' <> [] ->
   parse_shape x = Ok (map Z.of_nat s') ->
   exists R, reshape_d_req v0 T x = Some R /\ dshape R = s' /\ ddata R = ddata T /\
     (forall i, inb s' i = true -> den_dense v0 R i = den_dense v0 T (ind2sub (dshape T) (sub2ind s' i))).
